@@ -46,6 +46,15 @@ CHECKS = {
         note="trusted: the walker (lists, tuples, dict keys/values, struct/record fields, depth 4); the catalogue of mutating operations in the walker source; self-containing values are excluded from the frozen-vs-copy comparison of non-mutating operations",
         technique="conservation monitor across freeze + fault-injection style mutation attempts with unfrozen controls",
         ref="DESIGN.md section 3 C04"),
+    "C07": dict(
+        engine="svh",
+        text="The callable inventory is read from the live tree (all globals + dir() of a value of every type); histories of 200 snippets callee(extreme arguments) / operators / indexing, wrapped in calls, lambdas, comprehensions and native callbacks, "
+             "and scrambled (ill-typed) full-dialect programs are evaluated one after another on one module, with a fresh evaluator per item or one reused evaluator. Monitors: panic capture and child exit status (culprit found by bisection), "
+             "no Internal errors, every error has a span inside an involved file and a resolvable call stack, call_stack_count()==0 after every item, and a fixed probe program evaluated on the same evaluator after every item must give its known result. "
+             "ASan build in thorough. Held on the items evaluated.",
+        note="trusted: the probe's expected result; allocation failure / timeouts are inconclusive; one open known finding (debug() of a self-containing value overflows the stack) keyed on its exact shape",
+        technique="runtime assertion monitors over generated call histories (panic/abort capture, error well-formedness, reusability probe) + ASan",
+        ref="DESIGN.md section 3 C07"),
     "C09": dict(
         engine="svh",
         text="The algebraic laws themselves are the oracle: reflexivity, symmetry, transitivity (through equivalence classes, i.e. all triples), "
@@ -72,6 +81,15 @@ CHECKS = {
         note="trusted: the mutator catalogue (checked against dir() of the live tree; unknown methods are reported inconclusive); builtins that call back may legitimately have finished iterating; one open known finding (error exit never releases) keyed on its exact signature",
         technique="runtime model monitor (lock model) over an exhaustively enumerated scenario space",
         ref="DESIGN.md section 3 C12"),
+    "C15": dict(
+        engine="svh",
+        text="Limit model over measured quantities: (depth) 17 recursion shapes (direct, mutual, lambdas, comprehensions, sorted/map callbacks, partial, struct fields, kwargs/*args, inlinable wrappers, frozen defs) x limits {2,3,10,50,200(,1000)} x depths around each limit: "
+             "the evaluator's own frame count D at the deepest point of an unlimited run decides - D<=limit must be unaffected, D>limit must fail with StackOverflow; unbounded recursion on 8 MiB and 2 MiB stacks must end with StackOverflow, not a crash; "
+             "(ticks) tick counts of 7 loop/call structures are identical across runs and lie between structural bounds (iterations + calls), and with budgets placed around the measured N the run succeeds iff N<=B and fails within B+1000 ticks; "
+             "(cancel) after cancel() the evaluation ends with an error within 1000 further iterations at 11 tick positions x 4 loop forms; (reuse) afterwards the call stack is empty and the probe works.",
+        note="trusted: Evaluator::call_stack_count()/get_total_tick_count() as measuring devices; the documented check interval of 1000",
+        technique="runtime limit-model monitor over enumerated (shape, limit, depth/budget/position) scenarios",
+        ref="DESIGN.md section 3 C15"),
     "C20": dict(
         engine="svh",
         text="2..16 threads start on a barrier with seeded jitter and run generated client programs that load shared frozen modules (or, in the first-use variant, build globals and modules under contention), "
